@@ -33,4 +33,15 @@ structure DocRow where
                          -- set; "opaque": the wording describes a computed value (a path under $CWD, tempfile.gettempdir …)
 deriving DecidableEq, Repr
 
+/-- a statement of `_processes_from_section` that binds or updates the dictionary `expansions` of the
+    numprocs loop (harness/sites/config.py `loop_placement` says which of them stand in front of the loop
+    and which at the head of its body) -/
+inductive ExpStep
+  | alias           -- `expansions = common_expansions`        (one dictionary under two names)
+  | copy            -- `expansions = dict(common_expansions)`  (a fresh dictionary)
+  | setProcessNum   -- `expansions['process_num'] = process_num`
+  | setNumprocs     -- `expansions['numprocs'] = numprocs`
+  | resetEnviron    -- `expansions.update(self.environ_expansions)`
+deriving DecidableEq, Repr
+
 end Sv.Config
